@@ -124,12 +124,18 @@ class SuperNetCombiner(nn.Module):
         :return: a dictionary containing the optimized layer hyperparameter values
         :rtype: Dict[str, Any]
         """
+        # report the normalized coefficients without re-sampling: sample_alpha() would replace
+        # the coefficients in use (and, with Gumbel sampling, draw from the global RNG)
         with torch.no_grad():
-            self.sample_alpha()
+            theta_alpha = F.softmax(self.alpha / self.softmax_temperature, dim=0)
+            if self.hard_softmax:
+                theta_alpha = F.one_hot(
+                    torch.argmax(theta_alpha, dim=0), num_classes=len(theta_alpha)
+                ).to(torch.float32)
         res = {"supernet_branches": {}}
         for i in range(self.n_branches):
             res["supernet_branches"][f"branch_{i}"] = {}
-            res["supernet_branches"][f"branch_{i}"]['alpha'] = self.theta_alpha[i].item()
+            res["supernet_branches"][f"branch_{i}"]['alpha'] = theta_alpha[i].item()
         return res
 
     @property
